@@ -850,7 +850,7 @@ fn tts(c: &mut Case) {
 fn main() {
     runner::main(Spec {
         property: "C16",
-        rule: "kfold_grid / cv_grid enumerate every (n,k) with 2<=k<=n<=64 once, shuffle off (index -> (n,k)); kfold_shuffle / cv_shuffle map index mod 2016 -> (n,k) with shuffle on and draw the library's unseeded permutation 20 (quick) / 25 per repeat (thorough, 10 repeats) times resp. 3x2 times per case; kfold_large / cv_large sample 65<=n<=400 (300), k in {2, n, small, uniform}; tts samples n in 1..400, test_size in (0,1] from seven generators (uniform, common fractions, j/n, j/n +- 1 ulp, j/n +- 1e-7, exactly 1, log-uniform) re-drawn until the integer part of n*test_size in f32 is >= 1, shuffle on/off, six matrix backends. Rows carry a unique id (1..999, unrelated to position) in column 0, the other columns and the target are functions of the id. Every k-fold / cross-validation case is non-trivial (n>=k>=2); a train_test_split case is non-trivial when n>=2. Distinct = distinct hash of the case description (for shuffled k-fold cases including the first observed permutation).",
+        rule: "kfold_grid / cv_grid enumerate every (n,k) with 2<=k<=n<=64 once, shuffle off (index -> (n,k)); kfold_shuffle / cv_shuffle map index mod 2016 -> (n,k) with shuffle on, so every (n,k) is visited once in the quick tier and 10 times in the thorough tier; a kfold_shuffle case draws the library's unseeded permutation 20 (quick) / 25 (thorough) times, i.e. >= 20 / 250 draws per (n,k); a cv_shuffle case runs cross_validate and cross_val_predict 3 times each; kfold_large / cv_large sample 65<=n<=400 (300), k in {2, n, small, uniform}; tts samples n in 1..400, test_size in (0,1] from seven generators (uniform, common fractions, j/n, j/n +- 1 ulp, j/n +- 1e-7, exactly 1, log-uniform) re-drawn until the integer part of n*test_size in f32 is >= 1, shuffle on/off, six matrix backends. Rows carry a unique id (1..999, unrelated to position) in column 0, the other columns and the target are functions of the id. Every k-fold / cross-validation case is non-trivial (n>=k>=2); a train_test_split case is non-trivial when n>=2. Distinct = distinct hash of the case description (for shuffled k-fold cases including the first observed permutation).",
         assumptions: vec![
             "the library's shuffles use an unseeded thread_rng: replays of shuffled cases re-draw the permutation; the violation detail carries the observed folds",
             "fold order, the order of indices inside a fold, which folds get the extra sample and the order of the reported scores are left open by the statement and only recorded as observations (obs:*)",
